@@ -1,7 +1,39 @@
+/-
+  C19 (control API state machine)
+  on the engine model (Gnet/Model/Engine.lean). Small-step statements hold in every reachable
+  state: any number of loops, ticker on or off, any interleaving of accepts, traffic, peer
+  closes, shutdown requests from any source (also several racing), and the steps of the
+  `stop` goroutine, the loops and the ticker.
+-/
 import Gnet.Model.Engine
+import Gnet.Proofs.Engine
 namespace Gnet.Props.C19
 open Gnet.Engine
 
-theorem never_started_validate : api .never .validate = .empty := by decide
+/-- a handle that was never started: the empty-engine error everywhere, -1 from CountConnections -/
+theorem api_never (c : Call) : api .never c = (if c = .count then .minusOne else .empty) :=
+  Proofs.Engine.api_never c
+
+/-- a running engine accepts the calls (argument errors aside) -/
+theorem api_running : api .running .validate = .nil ∧ api .running .count = .number ∧ api .running .dup = .nil ∧
+    api .running .registerNoTarget = .invalidAddr ∧ api .running .dupListenerUnknown = .invalidAddr :=
+  Proofs.Engine.api_running
+
+/-- after shutdown has completed: the in-shutdown error everywhere, -1 from CountConnections; in
+    particular stopping twice is harmless -/
+theorem api_down (c : Call) : api .down c = (if c = .count then .minusOne else .inShutdown) :=
+  Proofs.Engine.api_down c
+
+/-- inside OnBoot no event loop is registered yet: Register reports the empty-engine error -/
+theorem api_booting_register : api .booting .registerNoTarget = .empty := Proofs.Engine.api_booting_register
+
+/-- a shutdown request is never undone (Stop returning the context's error does not cancel it) -/
+theorem request_is_final (s : State) (a : Step) (hc : s.ctxCancelled = true) : (step s a).ctxCancelled = true :=
+  Proofs.Engine.request_is_final s a hc
+
+/-- the flag that makes `Stop` return nil is set only by the last statement of engine.stop -/
+theorem flag_only_at_end (s : State) (a : Step) (h0 : s.inShutdown = false) (h1 : (step s a).inShutdown = true) :
+    a = .stopper ∧ s.stopPc = .setFlag :=
+  Proofs.Engine.flag_only_at_end s a h0 h1
 
 end Gnet.Props.C19
